@@ -14,6 +14,8 @@ import time
 
 import z3
 
+import itertools
+_qid = itertools.count()
 WORK = os.path.join(os.path.dirname(os.path.dirname(os.path.abspath(__file__))), ".work")
 
 Z3NEW = shutil.which("z3-new") or "/usr/local/bin/z3-new"
@@ -126,14 +128,16 @@ def run_solver(cmd, path, timeout):
     first = out.strip().split("\n", 1)[0].strip() if out.strip() else ""
     if first in ("sat", "unsat", "unknown"):
         return first, out, time.time() - t0
+    if first == "timeout" or "interrupted by timeout" in out or "timeout" in out.lower()[:200]:
+        return "timeout", out, time.time() - t0
     return "error", out + p.stderr, time.time() - t0
 
 
 def portfolio(text, timeout=30, strings=False, name="q"):
     """returns (status, backend, seconds, model_or_None, raw)"""
     os.makedirs(WORK, exist_ok=True)
-    h = hashlib.sha1(text.encode()).hexdigest()[:16]
-    path = os.path.join(WORK, f"{os.getpid()}_{h}.smt2")
+    h = hashlib.sha1(text.encode()).hexdigest()[:12]
+    path = os.path.join(WORK, f"{os.getpid()}_{next(_qid)}_{h}.smt2")
     with open(path, "w") as f:
         f.write(text)
     total = 0.0
